@@ -1,6 +1,7 @@
 package yqlib
 
 import (
+	"container/list"
 	"bufio"
 	"errors"
 	"io"
@@ -385,6 +386,22 @@ func VerifC12InPlace() {
 // ---- --front-matter: the split of the input file and the appendix of the printer ----
 
 // verifFMReader: the bytes of an opened file (front_matter.go wraps the *os.File in a bufio.Reader)
+// verifFileStat models (*os.File).Stat: the size is the length of the file's text, the mode the recorded one.
+func verifFileStat(f *os.File) (fs.FileInfo, error) {
+	name := c12.handles[f]
+	if t, ok := c12.text[name]; ok {
+		return c12SizedInfo{c12Info{mode: 0o644}, int64(len(t))}, nil
+	}
+	return c12Info{mode: 0o644}, nil
+}
+
+type c12SizedInfo struct {
+	c12Info
+	size int64
+}
+
+func (i c12SizedInfo) Size() int64 { return i.size }
+
 func verifFMReader(f *os.File) io.Reader { return strings.NewReader(c12.text[c12.handles[f]]) }
 
 func verifFileWriteString(f *os.File, s string) (int, error) {
@@ -415,7 +432,11 @@ func VerifC12FrontMatter() {
 	printer := NewPrinter(&c10Encoder{events: &events}, NewSinglePrinterWriter(bufio.NewWriter(c17Writer{&sb})))
 	printer.SetAppendix(h.GetContentReader())
 	doc := vDoc(vMap(vStr("k"), vStr("v")))
-	perr := printer.PrintResults(doc.AsList())
+	results := doc.AsList()
+	if verifChoice("expressionYieldsNothing", 2) == 1 {
+		results = list.New() // e.g. `select(.nope)`: no result is printed, the text after the front matter still is
+	}
+	perr := printer.PrintResults(results)
 	verifAssert(perr == nil, "C12/front-matter-print-error")
 	if perr != nil {
 		return
@@ -429,3 +450,38 @@ func VerifC12FrontMatter() {
 	}
 	verifCover("C12/frontmatter/end")
 }
+
+// VerifC12FrontMatterLong: files longer than the buffers the handler reads through (bufio's 4096 bytes): front matter
+// and the text after it, each possibly long, come back byte for byte.
+func VerifC12FrontMatterLong() {
+	c12 = &c12State{files: map[string]*c12File{}, handles: map[*os.File]string{}, noTrunc: map[*os.File]string{}, symlink: map[string]bool{}, text: map[string]string{}, noFaults: true, sameFS: true}
+	lens := []int{0, 1, 4085, 4086, 4087, 4096, 4097, 8200, 12300}
+	frontLen := lens[verifChoice("frontLen", 4)]
+	restLen := lens[verifChoice("restLen", len(lens))]
+	c := verifStrN("c", 1, "az")
+	front := "---\nk: " + c + strings.Repeat("v", frontLen) + "\n"
+	rest := "---\n" + c + strings.Repeat("t", restLen) + verifPick("end", "", "\n")
+	text := front + rest
+	c12.files["t.md"] = &c12File{content: c12Old, mode: 0o644}
+	c12.text["t.md"] = text
+	h := NewFrontMatterHandler("t.md")
+	err := h.Split()
+	verifAssert(err == nil, "C12/front-matter-split-error long")
+	if err != nil {
+		return
+	}
+	gotFront := c12.text[h.GetYamlFrontMatterFilename()]
+	var sb strings.Builder
+	var events []string
+	printer := NewPrinter(&c10Encoder{events: &events}, NewSinglePrinterWriter(bufio.NewWriter(c17Writer{&sb})))
+	printer.SetAppendix(h.GetContentReader())
+	perr := printer.PrintResults(vDoc(vMap(vStr("k"), vStr("v"))).AsList())
+	verifAssert(perr == nil, "C12/front-matter-print-error long")
+	if perr != nil {
+		return
+	}
+	verifAssert(verifEqStr(gotFront, front), "C12/front-matter-differs long")
+	verifAssert(verifEqStr(sb.String(), rest), "C12/text-after-front-matter-not-preserved long")
+	verifCover("C12/frontmatter-long/end")
+}
+
